@@ -367,6 +367,7 @@ type parJob struct {
 	cfg       cfgSpec
 	name      string
 	events    []genEvent
+	load      func() []genEvent // regenerates events (deterministic); held only while the job runs
 	compare   bool
 	rounds    int
 	normalize bool // hash with a normalizer: slow to start (the lexer is compiled), shared by all processors
@@ -396,6 +397,9 @@ func actionTypes(actions []string) []string {
 	return out
 }
 
+// parBadGenerated: event texts of the concurrency clause that encoding/json does not accept.
+var parBadGenerated int
+
 func buildParJobs(c *core.Ctx) []*parJob {
 	nRandom := c.N(200, 3000)
 	nVariants := c.N(1, 3)
@@ -408,36 +412,50 @@ func buildParJobs(c *core.Ctx) []*parJob {
 			cfgs = append(cfgs, variantsFor(ps, c.Rand("par-variants/"+ps.Name), nVariants)...)
 		}
 		for _, cf := range cfgs {
-			g := &evGen{fields: splitPaths(cf.Fields), dict: ps.Dict, rootDict: ps.RootDict, dictBias: ps.DictBias, benign: ps.Benign}
-			var evs []genEvent
-			for _, e := range cf.Prologue {
-				evs = append(evs, genEvent{Raw: []byte(e), Shape: "prologue"})
-			}
-			dir := g.directed()
-			n := nRandom
-			if cf.Stateful {
-				// hold-capable: no comparison (crash / validity only) and every stalled
-				// stream costs a 60 ms time-out: a third of the directed list, a quarter of the random part
-				for k := 0; k < len(dir); k += 3 {
-					evs = append(evs, dir[k])
+			cf := cf
+			load := func() []genEvent {
+				g := &evGen{fields: splitPaths(cf.Fields), dict: ps.Dict, rootDict: ps.RootDict, dictBias: ps.DictBias, benign: ps.Benign}
+				var evs []genEvent
+				for _, e := range cf.Prologue {
+					evs = append(evs, genEvent{Raw: []byte(e), Shape: "prologue"})
 				}
-				n /= 4
-			} else {
-				evs = append(evs, dir...)
+				dir := g.directed()
+				n := nRandom
+				if cf.Stateful {
+					// hold-capable: no comparison (crash / validity only) and every stalled
+					// stream costs a 60 ms time-out: a third of the directed list, a quarter of the random part
+					for k := 0; k < len(dir); k += 3 {
+						evs = append(evs, dir[k])
+					}
+					n /= 4
+				} else {
+					evs = append(evs, dir...)
+				}
+				rng := rand.New(rand.NewSource(c.SubSeed("par-events/"+ps.Name+"/"+cf.Label, 0)))
+				for i := 0; i < n; i++ {
+					evs = append(evs, g.random(rng))
+				}
+				if cf.Settings.K8s {
+					// the known fatal exit on a non-object root would end the one-processor phase
+					kept := evs[:0]
+					for _, e := range evs {
+						if len(e.Raw) > 0 && e.Raw[0] == '{' {
+							kept = append(kept, e)
+						}
+					}
+					evs = kept
+				}
+				return evs
 			}
-			rng := rand.New(rand.NewSource(c.SubSeed("par-events/"+ps.Name+"/"+cf.Label, 0)))
-			for i := 0; i < n; i++ {
-				evs = append(evs, g.random(rng))
-			}
-			if cf.Settings.K8s {
-				// the known fatal exit on a non-object root would end the one-processor phase
-				kept := evs[:0]
-				for _, e := range evs {
-					if len(e.Raw) > 0 && e.Raw[0] == '{' {
-						kept = append(kept, e)
+			// generated once for the generator's own contract, then dropped: the job
+			// regenerates its list when it runs
+			for _, e := range load() {
+				if !json.Valid(e.Raw) {
+					parBadGenerated++
+					if parBadGenerated < 5 {
+						fmt.Printf("generator bug (concurrency clause): %s/%s emits invalid JSON %s\n", ps.Name, cf.Label, evStr(e.Raw))
 					}
 				}
-				evs = kept
 			}
 			name := ps.Name
 			if ps.Chain {
@@ -462,7 +480,7 @@ func buildParJobs(c *core.Ctx) []*parJob {
 			if why, ok := parNoCompareCfg[ps.Name+"/"+cf.Label]; ok && why != "" {
 				compare = false
 			}
-			jobs = append(jobs, &parJob{ps: ps, cfg: cf, name: name, events: evs, compare: compare, rounds: rounds, normalize: normalize})
+			jobs = append(jobs, &parJob{ps: ps, cfg: cf, name: name, load: load, compare: compare, rounds: rounds, normalize: normalize})
 		}
 	}
 	return jobs
